@@ -698,6 +698,10 @@ pub fn check_opts(ck: &mut Ck, area: &[u8], mut it: NdpOptionsIterator, entry: &
     let info = OptInfo { kinds, n_ok: w.opts.len(), stop: w.stop };
 
     ensure!(ck, sub_at(area, it.rest(), 0, area.len()), entry, L, "rest-initial", "-", "expected the whole area ({} bytes), got {}", area.len(), where_is(area, it.rest()));
+    {
+        let laws = crate::obs::iterlaws::iter_laws(&it, area.len() + 2);
+        ensure!(ck, laws.is_none(), entry, L, "iterator-methods-follow-next", "-", "{}", laws.clone().unwrap_or_default());
+    }
     let mut items = 0usize;
     for o in &w.opts {
         let k = r::opt_letter(o.ty).to_string();
